@@ -134,7 +134,7 @@ func runTest(cfg *config.Config, pkgpath, runPattern string, appArgs ...string) 
 				continue
 			}
 
-			if !strings.HasPrefix(got, "panic: "+expect) { // panic: ${expect} (pos)
+			if !strings.HasPrefix(got, "panic: "+expect+" (") { // panic: ${expect} (pos)
 				fmt.Printf("---- %s.%s\n", prog.Manifest.MainPkg, t.Name)
 				fmt.Printf("    expect(panic) = %q, got = %q\n", expect, got)
 
@@ -241,7 +241,7 @@ func runTest(cfg *config.Config, pkgpath, runPattern string, appArgs ...string) 
 				continue
 			}
 
-			if !strings.HasPrefix(got, "panic: "+expect) { // panic: ${expect} (pos)
+			if !strings.HasPrefix(got, "panic: "+expect+" (") { // panic: ${expect} (pos)
 				fmt.Printf("---- %s.%s\n", prog.Manifest.MainPkg, t.Name)
 				fmt.Printf("    expect(panic) = %q, got = %q\n", expect, got)
 
